@@ -59,6 +59,7 @@ int shp_rs8_available(void);
 void shp_rs8_addmul1(uint8_t *dst, uint8_t *src, uint8_t c, int sz);
 /* which: 0 exp (elem 1 byte), 1 log (int), 2 inverse (1 byte), 3 mul_table (1 byte, row stride in *stride) */
 int shp_rs8_table(int which, const void **p, size_t *elem_size, size_t *count, size_t *stride);
+void shp_rs8_reinit(void);   /* calls the exported of_rs_init() once more (regeneration must be idempotent) */
 
 /* probe_gf: precomputed tables of the GF(2^m) codec.
  * which: 0 gf24 mul (16x16) 1 gf24 opt_mul (16x256) 2 gf24 inv 3 gf24 log 4 gf24 exp
